@@ -402,13 +402,44 @@ def ref_agg_match(rule, metric):
   return out
 
 
+class RefRulesFile(object):
+  """Reference view of aggregation-rules.conf: re-read every 10 s when the file has
+  been modified (documented: 'any time this file is modified, it will be re-read
+  automatically'); a missing file means no rules."""
+
+  def __init__(self, path, initial_text):
+    self.path = path
+    self.rules = parse_agg_rules(initial_text)
+    self.mtime = os.path.getmtime(path) if os.path.exists(path) else 0.0
+    self.nreloads = 0
+
+  def tick(self):
+    if not os.path.exists(self.path):
+      if self.rules:
+        self.nreloads += 1
+      self.rules = []
+      return
+    m = os.path.getmtime(self.path)
+    if m <= self.mtime:
+      return
+    self.mtime = m
+    with open(self.path, encoding='utf-8') as f:
+      self.rules = parse_agg_rules(f.read())
+    self.nreloads += 1
+
+
 def agg_rules_of(world):
+  ref = getattr(world, 'ref_rules_file', None)
+  if ref is not None:
+    return ref.rules
   if not hasattr(world, '_agg_rules'):
     world._agg_rules = parse_agg_rules(world.w.cfg['files'].get('aggregation-rules.conf'))
   return world._agg_rules
 
 
 def check_aggregated_key(world, metric, configured):
+  if getattr(world, 'ref_rules_file', None) is not None and world.at_reload_instant():
+    return
   router = world.router
   inner = world.hash_router
   try:
